@@ -1226,6 +1226,22 @@ SYMBOL_FORMS = {
     'existing-file program argument from PATH-SYMBOL': (
         'cleanup', ('% probe -existing-file @[P]@',),
         ("file in-a.txt = 'x'", 'def path P = -rel-act in-a.txt'), ("file in-b.txt = 'x'", 'def path P = -rel-act in-b.txt')),
+    # symbols DEFINED by the suite (the definition is parsed once, too) whose value depends on the case
+    'suite text-source from a file of the sandbox': (
+        'before-assert', ('def text-source TS = -contents-of -rel-act in.txt', 'file out.probe = @[TS]@', '% probe'),
+        ("file in.txt = 'in of a'",), ("file in.txt = 'in of b'",)),
+    'suite path symbol in the sandbox': (
+        'before-assert', ('def path P = -rel-tmp in.txt', 'file out.probe = -contents-of @[P]@', '% probe'),
+        ("file -rel-tmp in.txt = 'in of a'",), ("file -rel-tmp in.txt = 'in of b'",)),
+    'suite text-transformer symbol using a symbol of the case': (
+        'assert', ('def text-transformer T = filter -line-nums @[N]@', _CONTENTS, '    -transformed-by T', _EQUALS),
+        _F2 + ('def string N = 1', _EXP_FIRST), _F2 + ('def string N = 2', _EXP_SECOND)),
+    'suite program symbol with argument from the case': (
+        'before-assert', ('def program PGM = % suite-program @[V]@', 'run @ PGM extra'),
+        ('def string V = of-a',), ('def string V = of-b',)),
+    'suite line-matcher symbol using a regex of the case': (
+        'assert', ('def line-matcher LM = contents matches @[RE]@', _CONTENTS, '    -transformed-by filter LM', _EQUALS),
+        _F2 + ('def string RE = ^f', _EXP_FIRST), _F2 + ('def string RE = ^s', _EXP_SECOND)),
     'file relative to the home directory of the case': (
         'before-assert', ('copy -rel-home data.txt out.probe', '% probe'), (), (),
         dict(b_path='bdir/b.case', files={'s/data.txt': 'data of a', 's/bdir/data.txt': 'data of b'})),
